@@ -155,7 +155,7 @@ def eval_case(ctx, case):
             try:
                 b.build()
                 doc = b.doctree("index").deepcopy()
-                wtext = "\n".join("index.md:0: (WARNING/2) " + r["msg"] + (f" [{r['type']}.{r['subtype']}]" if r["type"] else "") for r in b.records)
+                wtext = "\n".join("index.md:0: (WARNING/2) " + r["msg"].replace("\n", " ") for r in b.stream_records())  # the stream: what the user sees
             finally:
                 b.close()
             if len(doc.children) == 1 and isinstance(doc[0], nodes.section) and False:
